@@ -78,7 +78,7 @@ package parser
 // sender, one receiver: the k-th receive yields the k-th token sent (spec_recv(k), ok) while the channel is
 // open, and the zero value with ok == false once it is closed. "fetched" counts receives.
 
-func spec_recv(i int) Token { panic("spec") }
+func spec_recv(i int) Token  { panic("spec") }
 func spec_recvOK(i int) bool { panic("spec") }
 
 //@ ghostvar fetched int
